@@ -42,6 +42,8 @@ Property clause → theorem  (model: `Comdex/Model/Liquidation.lean`, both gener
 * "opens exactly one auction for it", for every auction type the whitelisting can select, and nothing seized when none is
     → `C09.auction_type_follows_whitelisting`; the messages that seize nobody: `C09.external_liquidation_touches_no_position`;
       `MsgLiquidateInternalKeeper` = step + keeper mark: `C09.keeper_message_is_step_plus_mark`.
+* the vault sweep's window is untouched by every non-vault seizure (borrow step / pass, external-keeper, reserve message)
+    → `C09.nonvault_seizure_leaves_vault_window` (round-6 seed s107; monitor `vault_counter_follows_vault_seizures`).
 * liveness when governance changes the batch size mid-sweep → `C09.sweep_live_varbatch_partial` (any positive sizes; the block
   that covers index `i` comes at most `i` blocks after the sweep start), `C09.zero_batch_processes_nothing` (why `> 0` is validated).
 * accrual: `C09.vault_safe_after_accrual_not_seized`, `C09.vault_decision_is_on_recorded_debt` (the vault decision ignores
@@ -758,6 +760,52 @@ theorem external_liquidation_touches_no_position :
             subst h
             exact ⟨rfl, rfl, rfl, rfl, rfl, rfl, rfl, by omega, Bal.get_add_self _ _ _⟩
 
+/-- the index window `totalVaults[start:end]` the NEXT generation-2 vault pass will look at: computed from the vault COUNTER
+(`LengthOfVault`) and the vault sweep's own offset (key 0), liquidate.go:43-57 -/
+def vaultWindow (batch : Nat) (w : World) : Int × Int :=
+  sweepBoundsI (toGoInt w.counter) (toGoInt ((w.offsets.get? 0).getD 0)) (toGoInt batch)
+
+/-- **A non-vault seizure leaves the vault sweep's window untouched.** In generation 2 `CreateLockedVault` is shared by the vault
+liquidation, the borrow liquidation, the external-keeper liquidation (and the collector kick-offs); the vault counter is decremented
+by the VAULT liquidation only (liquidate.go:151-152). So: a borrow step, a whole borrow pass, an accepted `MsgLiquidateExternalKeeper`
+and an accepted `MsgAppReserveFunds` leave the vault list, the vault counter and — for every batch size — the window of the next vault
+pass exactly as they were: no position at the tail of the vault list drops out of the sweep because something else was seized.
+(Round-6 seed s107 moved the decrement into `CreateLockedVault`; on the real code the law is monitored as
+`vault_counter_follows_vault_seizures` and, for the tail positions, by `seized_within_bound`.) -/
+theorem nonvault_seizure_leaves_vault_window (batch : Nat) :
+    (∀ (e : Env) (id : Nat) (w w' : World), liquidateBorrowV2 e id w = some w' →
+      w'.vaults = w.vaults ∧ w'.counter = w.counter ∧ vaultWindow batch w' = vaultWindow batch w) ∧
+    (∀ (e : Env) (b : Nat) (w w' : World), borrowPassV2 e b w = .ok w' →
+      w'.vaults = w.vaults ∧ w'.counter = w.counter ∧ vaultWindow batch w' = vaultWindow batch w) ∧
+    (∀ (e : Env) (app ca da : Nat) (camt damt ub : Int) (w w' : World), msgLiquidateExternalV2 e app ca da camt damt ub w = some w' →
+      w'.vaults = w.vaults ∧ w'.counter = w.counter ∧ vaultWindow batch w' = vaultWindow batch w) ∧
+    (∀ (e : Env) (app asset : Nat) (dok : Bool) (amt ub : Int) (w w' : World), msgAppReserveFunds e app asset dok amt ub w = some w' →
+      w'.vaults = w.vaults ∧ w'.counter = w.counter ∧ vaultWindow batch w' = vaultWindow batch w) := by
+  refine ⟨?_, ?_, ?_, ?_⟩
+  · intro e id w w' h
+    have r := liquidateBorrowV2_vaultSide e id w w' h
+    have ho := liquidateBorrowV2_offsets e id w w' h
+    exact ⟨r.1, r.2.1, by unfold vaultWindow; rw [r.2.1, ho]⟩
+  · intro e b w w' h
+    have r := borrowPassV2_vaultSide e b w w' h
+    exact ⟨r.1, r.2.1, by unfold vaultWindow; rw [r.2.1, r.2.2.2]⟩
+  · intro e app ca da camt damt ub w w' h
+    have r := external_liquidation_touches_no_position.1 e app ca da camt damt ub w w' h
+    exact ⟨r.1, r.2.1, by unfold vaultWindow; rw [r.2.1, r.2.2.1]⟩
+  · intro e app asset dok amt ub w w' h
+    unfold msgAppReserveFunds at h
+    split at h
+    · cases h
+    · split at h
+      · cases h
+      · split at h
+        · cases h
+        · split at h
+          · cases h
+          · simp only [Option.some.injEq] at h
+            subst h
+            exact ⟨rfl, rfl, rfl⟩
+
 /-- **`MsgLiquidateInternalKeeper` = the per-position step + the keeper mark**: the delivered message is `msgLiquidateV2` (to which
 `safe_never_seized`, `seize_opens_one_auction`, `borrow_step_atomic` apply) followed by setting `IsInternalKeeper` on the locked
 vaults it appended; the mark changes nothing else. -/
@@ -855,5 +903,12 @@ example : ∃ w', msgLiquidateExternalV2 { witEnv with aucParams2 := some (10000
 
 -- `sweep_live_varbatch_partial`: batch sizes 2, 1, 3, … cover index 4 in the third block of the sweep
 example : covered (fun k => [2, 1, 3].getD k 1) 0 2 ≤ 4 ∧ 4 < covered (fun k => [2, 1, 3].getD k 1) 0 3 := by decide
+
+-- `nonvault_seizure_leaves_vault_window`: the English-only seizure of the leak witness's borrow, with three vaults in the same world:
+-- counter 3 and window (0, 2) before and after
+example : ∃ w', liquidateBorrowV2 { leakEnv with apps := [{ id := 3, wl2 := true, english2 := true }] } 1
+      { leakWorld with vaults := witWorld.vaults, counter := 3 } = some w' ∧ w'.borrows.map (·.liquidated) = [true] ∧
+      w'.counter = 3 ∧ vaultWindow 2 w' = (0, 2) :=
+  ⟨_, rfl, by decide, by decide, by decide⟩
 
 end Comdex.C09
